@@ -81,7 +81,14 @@ class UsedQubitIndicesVisitor(Visitor):
                 if param is all:
                     self.merge_into(indices, self.all_qubits)
                 else:
-                    self.merge_into(indices, self.visit(param, context=context))
+                    used = self.visit(param, context=context)
+                    if self.validate_parallel and any(
+                        indices[reg] & used[reg] for reg in used
+                    ):
+                        raise JaqalError(
+                            f"Gate {obj.name} acting on the same qubit more than once."
+                        )
+                    self.merge_into(indices, used)
             return indices
 
     def bind_argument(self, arg, context):
